@@ -19,6 +19,7 @@ type Env struct {
 	vars map[string]Val
 	mem  *MemState
 	old  *Env
+	prev *Env
 	pkg  *types.Package
 	// side obligations produced while evaluating (bounds of spec indexing are
 	// not generated: specs are total functions over arrays)
@@ -667,6 +668,17 @@ func (ev *Env) call(e *Expr) Val {
 			}
 		}
 		return o.eval(e.Args[0])
+	case "prev":
+		if ev.prev == nil {
+			efail("prev() outside a loop step clause")
+		}
+		p := ev.prev.child()
+		for k, v := range ev.vars {
+			if _, ok := p.vars[k]; !ok {
+				p.vars[k] = v
+			}
+		}
+		return p.eval(e.Args[0])
 	case "wide":
 		x := arg(0)
 		if x.K == KLit {
@@ -841,6 +853,18 @@ func (ev *Env) call(e *Expr) Val {
 			}
 		}
 		return boolVal(ev.c.equalVals(cur, o.eval(e.Args[0])))
+	case "count24":
+		// number of occurrences of byte c among the first min(len, 24) bytes
+		s, cb := arg(0), arg(1)
+		if cb.K == KLit {
+			cb = ev.coerce(cb, bvVal("", 8, false, nil))
+		}
+		sum := bvLit(128, 0)
+		for i := 0; i < 24; i++ {
+			bi := bvLit(64, uint64(i))
+			sum = app("bvadd", sum, iteT(and(app("bvslt", bi, s.Len), eq(ev.c.sliceElem(s, bi).T, cb.T)), bvLit(128, 1), bvLit(128, 0)))
+		}
+		return wideVal(sum)
 	case "hasPrefix":
 		s, p := arg(0), arg(1)
 		return boolVal(ev.c.hasPrefixQ(s, p))
